@@ -44,11 +44,20 @@ type Monitors struct {
 	opRows map[string]int64
 	// tick number since which a task has been in state init without interruption
 	initSince map[string]int
+	alsoProp  string
+	// every version of every task row: (event, state, counter)
+	taskHist map[string][]taskVer
+}
+
+type taskVer struct {
+	ev      int64
+	state   int
+	counter int
 }
 
 func NewMonitors(s *Sim) *Monitors {
 	m := &Monitors{s: s, routerFailed: map[string]bool{}, claimed: map[string]string{}, sends: map[string][]*SentMsg{},
-		completedAt: map[string]int64{}, deletedAck: map[string]int64{}, passedOver: map[string]int{}, fired: map[string]int{}, hits: map[string]int{}, regions: map[string]bool{}, guar: map[string]int64{}, selected: map[string]int{}, opRows: map[string]int64{}, initSince: map[string]int{}}
+		completedAt: map[string]int64{}, deletedAck: map[string]int64{}, passedOver: map[string]int{}, fired: map[string]int{}, hits: map[string]int{}, regions: map[string]bool{}, guar: map[string]int64{}, selected: map[string]int{}, opRows: map[string]int64{}, initSince: map[string]int{}, taskHist: map[string][]taskVer{}}
 	found := false
 	for _, src := range s.cfg.Sources {
 		if src.Name == "default" {
@@ -72,12 +81,35 @@ func (m *Monitors) region(name string) { m.regions[name] = true }
 // violate records a violation; props may name several properties ("C04,C03").
 func (m *Monitors) violate(props, sig, what string) {
 	m.s.logf("VIOLATION %s %s: %s", props, sig, what)
+	if m.alsoProp != "" && !strings.Contains(props, m.alsoProp) {
+		props += "," + m.alsoProp
+		sig = "restart:" + sig
+		what = "the restart itself changed stored rows: " + what
+	}
 	for _, prop := range strings.Split(props, ",") {
 		m.vios = append(m.vios, vh.Violation{Prop: prop, Sig: sig, What: what, Class: m.s.class})
 	}
 }
 
-func (m *Monitors) OnCrash() {}
+// OnCrash: a restart must leave the stored state alone (C06: every acknowledged mutation is still there,
+// unchanged, after kill and restart). The tables right after boot are compared with the last observed
+// state; differences are judged like a commit without commands at the current time (so a boot that only
+// did what the sweeps are entitled to do at this moment passes), and whatever is illegal counts for C06 too.
+func (m *Monitors) OnCrash() {
+	next, err := vh.ReadSnapshot(m.s.obs)
+	if err != nil {
+		return
+	}
+	m.hit("restart.tables-compared")
+	if next.Equal(m.s.snap) {
+		return
+	}
+	m.hit("restart.tables-differ")
+	m.alsoProp = "C06"
+	m.OnBatch(m.s.snap, &BatchInfo{Tick: m.s.now, Index: m.s.batches}, next)
+	m.alsoProp = ""
+	m.s.snap = next
+}
 
 // ---------------------------------------------------------------------------
 // helpers over a batch
@@ -435,6 +467,11 @@ func (m *Monitors) takeSend(id string, counter int, want func(*SentMsg) bool) bo
 
 func (m *Monitors) checkTasks(prev *vh.Snapshot, bi *BatchInfo, next *vh.Snapshot, cmds []cmdRes, completing map[string]bool, expectedReg map[string]bool) {
 	t := bi.Tick
+	for id, t1 := range next.T {
+		if t0 := prev.T[id]; t0 == nil || t0.State != t1.State || t0.Counter != t1.Counter {
+			m.taskHist[id] = append(m.taskHist[id], taskVer{m.s.ev, t1.State, t1.Counter})
+		}
+	}
 	for id, t0 := range prev.T {
 		t1 := next.T[id]
 		if t1 == nil {
@@ -1286,7 +1323,52 @@ func (m *Monitors) OnReturn(o *OpRec) {
 		}
 	case t_api.CreateCallback, t_api.CreateSubscription:
 		m.checkRegistrationAck(o)
+	case t_api.AcquireLock, t_api.ReleaseLock, t_api.HeartbeatLocks:
+		m.checkLockAck(o)
+	case t_api.CompleteTask:
+		// finished is absorbing: a completion acknowledged as done (201) or as already done (200) names a task
+		// that is finished in the stored state at the moment of the reply
+		if st == 20100 || st == 20000 {
+			r := o.Req.CompleteTask
+			m.hit("task.completion-ack-checked")
+			row := m.s.snap.T[r.Id]
+			if row == nil || (row.State != 8 && row.State != 16) {
+				m.violate("C07,C02", "ack:task-completion-acknowledged-but-active", fmt.Sprintf("op%d %s was acknowledged %d but the stored task is %v", o.Idx, o.Req, st, row))
+			}
+			if st == 20100 {
+				own := false
+				for _, ot := range o.Txs {
+					if ot.Failed || ot.Tx.Results == nil {
+						continue
+					}
+					for j, c := range ot.Tx.Commands {
+						if c.Kind == t_aio.UpdateTask && c.UpdateTask.Id == r.Id && j < len(ot.Tx.Results) && rowsOf(ot.Tx.Results[j]) == 1 {
+							own = true
+						}
+					}
+				}
+				if !own {
+					m.violate("C07,C02", "ack:task-completion-201-without-commit", fmt.Sprintf("op%d %s was acknowledged 201 but none of its own transactions completed the task", o.Idx, o.Req))
+				}
+			}
+		}
 	case t_api.ClaimTask:
+		if st == 20100 {
+			own := false
+			for _, ot := range o.Txs {
+				if ot.Failed || ot.Tx.Results == nil {
+					continue
+				}
+				for j, c := range ot.Tx.Commands {
+					if c.Kind == t_aio.UpdateTask && c.UpdateTask.Id == o.Req.ClaimTask.Id && j < len(ot.Tx.Results) && rowsOf(ot.Tx.Results[j]) == 1 {
+						own = true
+					}
+				}
+			}
+			if !own {
+				m.violate("C07,C02", "ack:claim-201-without-commit", fmt.Sprintf("op%d %s was acknowledged 201 but none of its own transactions claimed the task", o.Idx, o.Req))
+			}
+		}
 		if st == 20100 {
 			r := o.Req.ClaimTask
 			key := fmt.Sprintf("%s/%d", r.Id, r.Counter)
@@ -1298,6 +1380,63 @@ func (m *Monitors) OnReturn(o *OpRec) {
 			tk := o.Res.ClaimTask.Task
 			if tk == nil || tk.Id != r.Id || tk.Counter != r.Counter {
 				m.violate("C07", "payload:claim-names-other-task", fmt.Sprintf("op%d claimed (%s,%d) but the reply names %v", o.Idx, r.Id, r.Counter, tk))
+			}
+		}
+	}
+}
+
+// checkLockAck: C09 — what a lock request is told must be what one of its own
+// committed transactions did (the replayed model judges the commands; this
+// ties the replies to them): a grant names a lease that was stored, a refusal
+// a command that was refused.
+func (m *Monitors) checkLockAck(o *OpRec) {
+	st := o.Status()
+	var last *cmdRes
+	for _, ot := range o.Txs {
+		if ot.Failed || ot.Tx.Results == nil {
+			continue
+		}
+		for j, c := range ot.Tx.Commands {
+			if j < len(ot.Tx.Results) && (c.Kind == t_aio.AcquireLock || c.Kind == t_aio.ReleaseLock || c.Kind == t_aio.HeartbeatLocks) {
+				last = &cmdRes{tx: ot.Tx, cmd: c, res: ot.Tx.Results[j]}
+			}
+		}
+	}
+	m.hit("lock.reply-tied-to-commit")
+	switch o.Req.Kind {
+	case t_api.AcquireLock:
+		r := o.Req.AcquireLock
+		switch st {
+		case 20100:
+			l := o.Res.AcquireLock.Lock
+			if last == nil || last.cmd.Kind != t_aio.AcquireLock || rowsOf(last.res) != 1 {
+				m.violate("C09,C02", "ack:acquire-granted-without-commit", fmt.Sprintf("op%d %s was granted (201, %v) but no committed acquire of its own took the lock", o.Idx, o.Req, l))
+				return
+			}
+			a := last.cmd.AcquireLock
+			if l == nil || l.ResourceId != r.ResourceId || l.ExecutionId != r.ExecutionId || l.ProcessId != r.ProcessId || l.Ttl != r.Ttl || l.ExpiresAt != a.ExpiresAt {
+				m.violate("C09", "ack:acquire-reply-differs", fmt.Sprintf("op%d %s was granted %v, the stored lease is %s", o.Idx, o.Req, l, cmdString(last.cmd)))
+			}
+		case 40304:
+			if last == nil || last.cmd.Kind != t_aio.AcquireLock || rowsOf(last.res) != 0 {
+				m.violate("C09,C02", "ack:acquire-refused-but-committed", fmt.Sprintf("op%d %s was refused (40304) although its acquire took the lock or never ran", o.Idx, o.Req))
+			}
+		}
+	case t_api.ReleaseLock:
+		switch st {
+		case 20400:
+			if last == nil || last.cmd.Kind != t_aio.ReleaseLock || rowsOf(last.res) != 1 {
+				m.violate("C09,C02", "ack:release-without-commit", fmt.Sprintf("op%d %s was acknowledged (204) but no committed release of its own removed the lock", o.Idx, o.Req))
+			}
+		case 40402:
+			if last == nil || last.cmd.Kind != t_aio.ReleaseLock || rowsOf(last.res) != 0 {
+				m.violate("C09,C02", "ack:release-refused-but-committed", fmt.Sprintf("op%d %s was answered 40402 although its release removed the lock or never ran", o.Idx, o.Req))
+			}
+		}
+	case t_api.HeartbeatLocks:
+		if st == 20000 {
+			if last == nil || last.cmd.Kind != t_aio.HeartbeatLocks || rowsOf(last.res) != o.Res.HeartbeatLocks.LocksAffected {
+				m.violate("C09", "ack:heartbeat-count", fmt.Sprintf("op%d %s reports %d locks renewed, its committed heartbeat says otherwise", o.Idx, o.Req, o.Res.HeartbeatLocks.LocksAffected))
 			}
 		}
 	}
